@@ -62,5 +62,8 @@ pub fn panic_msg(e: &Box<dyn std::any::Any + Send>) -> String {
 }
 
 pub fn silence_panics() {
+    if std::env::var("VERIF_PANIC").is_ok() {
+        return;
+    }
     std::panic::set_hook(Box::new(|_| {}));
 }
